@@ -10,7 +10,8 @@ tier = sys.argv[4] if len(sys.argv) > 4 else "quick"
 agg = collections.Counter(); reach = collections.Counter(); sigs = collections.Counter()
 first = {}
 for s in range(s0, s0 + n):
-    r = run_cfg(make_cfg(s, prof, tier))
+    import os
+    r = run_cfg(make_cfg(s, prof, tier, population=os.environ.get("POP","clean")))
     agg.update(r["stats"]); reach.update(r["reach"])
     for inc in r["incidents"]: print('INCIDENT', s, inc)
     if r["harness_error"]:
